@@ -1106,3 +1106,186 @@ pub fn stats_volume(spec: &crate::Spec) -> Report {
     rep.sample(Json::obj().set("bytes_dropped", tally.bytes_dropped).set("bytes_sent", t2.bytes_sent));
     rep
 }
+
+/// seqx/sock-conn: UDP sinks over a socket the caller has `connect()`ed, with the peer going away
+/// and coming back (C07, C13, C05). A connected UDP socket reports the ICMP "port unreachable"
+/// caused by an earlier datagram as `ECONNREFUSED` on a later send, which then sends nothing: the
+/// one way a real UDP socket write fails on loopback. Every history over {emit, flush, peer down,
+/// peer up} up to a depth is run. While the peer is away the kernel accepts datagrams it then
+/// discards, so loss is not judged; what is judged holds whenever the refusals happen to land:
+/// no metric arrives twice, no metric whose emit returned an error ever arrives, every datagram
+/// is well-formed, and (unbuffered) a send that returned Ok while the peer was up arrives.
+pub fn connected_udp(spec: &crate::Spec) -> Report {
+    let mut rep = Report::new(&spec.raw);
+    let depth = spec.usize("depth", 5);
+    let cap = spec.opt_usize("cap"); // None: the unbuffered sink
+    #[derive(Clone, Copy, Debug, PartialEq)]
+    enum Op {
+        Emit,
+        Flush,
+        Down,
+        Up,
+    }
+    let alpha: Vec<Op> = if cap.is_some() { vec![Op::Emit, Op::Flush, Op::Down, Op::Up] } else { vec![Op::Emit, Op::Down, Op::Up] };
+    // all histories in which Down / Up alternate properly
+    let mut hists: Vec<Vec<Op>> = vec![];
+    fn rec(cur: &mut Vec<Op>, up: bool, depth: usize, alpha: &[Op], out: &mut Vec<Vec<Op>>) {
+        if !cur.is_empty() {
+            out.push(cur.clone());
+        }
+        if cur.len() == depth {
+            return;
+        }
+        for &op in alpha {
+            let next_up = match op {
+                Op::Down if up => false,
+                Op::Up if !up => true,
+                Op::Down | Op::Up => continue,
+                _ => up,
+            };
+            cur.push(op);
+            rec(cur, next_up, depth, alpha, out);
+            cur.pop();
+        }
+    }
+    rec(&mut vec![], true, depth, &alpha, &mut hists);
+    // only histories in which the peer is away at some point add to what the other checks cover
+    hists.retain(|h| h.contains(&Op::Down) && h.contains(&Op::Emit));
+    let tx = UdpSocket::bind("127.0.0.1:0").unwrap();
+    for h in &hists {
+        rep.traces += 1;
+        let first = UdpSocket::bind("127.0.0.1:0").unwrap();
+        first.set_read_timeout(Some(Duration::from_secs(15))).unwrap();
+        let addr = first.local_addr().unwrap();
+        let mut peer: Option<Rx> = Some(Rx::Udp(first, tx.try_clone().unwrap()));
+        let sock = UdpSocket::bind("127.0.0.1:0").unwrap();
+        sock.connect(addr).unwrap();
+        let sink: Box<dyn MetricSink> = match cap {
+            None => Box::new(UdpMetricSink::from(addr, sock).unwrap()),
+            Some(c) => Box::new(BufferedUdpMetricSink::with_capacity(addr, sock, c).unwrap()),
+        };
+        let ctx = format!("{} over a connected socket, history {:?}", if let Some(c) = cap { format!("BufferedUdpMetricSink(capacity {})", c) } else { "UdpMetricSink".to_string() }, h);
+        let mut arrived: Vec<Vec<u8>> = vec![];
+        let mut refused: Vec<String> = vec![];
+        let mut accepted: Vec<String> = vec![];
+        let mut n = 0;
+        let mut ok_up_unbuffered: Vec<String> = vec![];
+        let mut ops: Vec<Op> = h.clone();
+        // epilogue: peer back, then flush until it says Ok (a queued refusal may fail one of them)
+        if peer.is_none() || ops.iter().rev().find(|o| matches!(o, Op::Down | Op::Up)) == Some(&Op::Down) {
+            ops.push(Op::Up);
+        }
+        ops.extend([Op::Flush, Op::Flush, Op::Flush]);
+        let mut panicked = false;
+        for op in ops {
+            rep.evaluations += 1;
+            match op {
+                Op::Down => {
+                    if let Some(rx) = peer.take() {
+                        if let Ok(d) = rx.drain() {
+                            arrived.extend(d);
+                        }
+                        drop(rx);
+                    }
+                }
+                Op::Up => {
+                    if peer.is_none() {
+                        let mut s = None;
+                        for _ in 0..50 {
+                            match UdpSocket::bind(addr) {
+                                Ok(x) => {
+                                    s = Some(x);
+                                    break;
+                                }
+                                Err(_) => std::thread::sleep(Duration::from_millis(2)),
+                            }
+                        }
+                        let Some(s) = s else {
+                            rep.errors.push(format!("cannot bind {} again", addr));
+                            return rep;
+                        };
+                        s.set_read_timeout(Some(Duration::from_secs(15))).unwrap();
+                        peer = Some(Rx::Udp(s, tx.try_clone().unwrap()));
+                    }
+                }
+                Op::Emit => {
+                    let m = format!("m{}:1|c", n);
+                    n += 1;
+                    match panic::catch_unwind(AssertUnwindSafe(|| sink.emit(&m))) {
+                        Ok(Ok(_)) => {
+                            accepted.push(m.clone());
+                            if cap.is_none() && peer.is_some() {
+                                ok_up_unbuffered.push(m);
+                            }
+                        }
+                        Ok(Err(_)) => {
+                            rep.flag("refusal-on-a-connected-socket");
+                            refused.push(m)
+                        }
+                        Err(_) => panicked = true,
+                    }
+                }
+                Op::Flush => {
+                    if panic::catch_unwind(AssertUnwindSafe(|| sink.flush())).is_err() {
+                        panicked = true;
+                    }
+                }
+            }
+            if let Some(rx) = &peer {
+                match rx.drain() {
+                    Ok(d) => arrived.extend(d),
+                    Err(e) => {
+                        rep.errors.push(e);
+                        return rep;
+                    }
+                }
+            }
+        }
+        drop(sink);
+        if let Some(rx) = &peer {
+            if let Ok(d) = rx.drain() {
+                arrived.extend(d);
+            }
+        }
+        if panicked {
+            bad(&mut rep, &["C07", "C13", "C20"], "panic", format!("{}: a call panicked", ctx));
+        }
+        let mut lines: Vec<String> = vec![];
+        for d in &arrived {
+            let text = String::from_utf8_lossy(d).to_string();
+            match cap {
+                None => lines.push(text),
+                Some(c) => {
+                    let whole = text.ends_with('\n') && d.len() <= c.max(1);
+                    let alone = !text.contains('\n') && d.len() + 1 > c;
+                    if !(whole || alone) {
+                        bad(&mut rep, &["C05", "C07", "C13"], "framing", format!("{}: datagram {:?} is neither complete lines within the capacity nor one oversize metric alone", ctx, text));
+                    }
+                    lines.extend(text.trim_end_matches('\n').split('\n').map(|s| s.to_string()));
+                }
+            }
+        }
+        for l in &lines {
+            if lines.iter().filter(|x| *x == l).count() > 1 {
+                bad(&mut rep, &["C07", "C06", "C13"], "written-twice", format!("{}: {:?} arrived more than once ({:?})", ctx, l, lines));
+                break;
+            }
+        }
+        for l in &lines {
+            if refused.contains(l) {
+                bad(&mut rep, &["C07", "C13"], "sent-despite-error", format!("{}: emit({:?}) returned an error but the metric arrived ({:?})", ctx, l, lines));
+            } else if !accepted.contains(l) {
+                bad(&mut rep, &["C13", "C05"], "foreign-bytes", format!("{}: {:?} arrived but was never emitted", ctx, l));
+            }
+        }
+        for m in &ok_up_unbuffered {
+            if !lines.contains(m) {
+                bad(&mut rep, &["C13"], "accepted-but-not-sent", format!("{}: emit({:?}) returned Ok while the peer was up but nothing arrived ({:?})", ctx, m, lines));
+            }
+        }
+        rep.distinct(&(format!("{:?}", h), lines.len(), refused.len()));
+    }
+    rep.sample(Json::obj().set("histories", hists.len()).set("depth", depth).set("sink", format!("{:?}", cap)));
+    rep.flag("peer-went-away-and-came-back");
+    rep
+}
